@@ -82,7 +82,7 @@ class Task:
 
 
 class Scheduler:
-    def __init__(self, chooser, horizon=5000, timeout=30.0, exit_points=True):
+    def __init__(self, chooser, horizon=5000, timeout=300.0, exit_points=True):
         self.exit_points = exit_points
         self.chooser = chooser
         self.tasks = []
